@@ -1,12 +1,18 @@
 CONSTANTS
   Dev = {}
   MaxOps = 10
+  MaxViewOps = 8
+  ManyViews = TRUE
 SPECIFICATION MCSpec
 VIEW NoHistView
 INVARIANT Idempotent
+INVARIANT ViewIdempotent
+INVARIANT ViewFilters
+INVARIANT NoUndecided
 INVARIANT PosWithin
 INVARIANT CountBound
 INVARIANT ReturnedNamesValid
 PROPERTY PosMonotone
 PROPERTY Fused
+PROPERTY DataErrorGoesOn
 CHECK_DEADLOCK FALSE
